@@ -155,6 +155,23 @@ pub fn run(ctx: &Ctx) -> Outcome {
                     rep.count("sparse_chunks");
                 }
             }
+            if shard == 4 || shard == 5 || shard == 3 || shard == 6 || shard == 2 {
+                // a code followed by the CHECK BYTE of the one-byte frame it would have made (an echoed check byte left in the
+                // data), and by the check byte of the two-byte frame itself: still two data bytes, still unknown
+                for (cty, cd) in &codes {
+                    if cd.len() != 1 || *cty != shard as u8 {
+                        continue;
+                    }
+                    for addr in (0u32..=0xFFFF).step_by(257).map(|a| a as u16).chain([0x0003, 0x00FF, 0x0100, 0xFFFF]) {
+                        let lrc1 = 1u8.wrapping_add((addr >> 8) as u8).wrapping_add(addr as u8).wrapping_add(*cty).wrapping_add(cd[0]).wrapping_neg();
+                        let lrc2 = 2u8.wrapping_add((addr >> 8) as u8).wrapping_add(addr as u8).wrapping_add(*cty).wrapping_add(cd[0]);
+                        check_frame(addr, *cty, &[cd[0], lrc1], addr % 2 == 0, rep);
+                        check_frame(addr, *cty, &[cd[0], lrc2.wrapping_neg()], addr % 2 == 1, rep);
+                        check_frame(addr, *cty, &[cd[0], lrc1, lrc1], false, rep);
+                        rep.count("codes_followed_by_a_check_byte");
+                    }
+                }
+            }
             if shard == 2 {
                 for (a, t, d) in refs::coincidence_frames() {
                     check_frame(a, t, &d, false, rep);
@@ -263,6 +280,7 @@ pub fn run(ctx: &Ctx) -> Outcome {
         floor("every one-byte code followed by 1..254 further bytes", report.get("codes_at_longer_lengths") > 15_000, report.get("codes_at_longer_lengths")),
         floor("frames whose fields coincide (all fields one value, for every value; checksum equal to another field or to a syntax byte)", report.get("coincidence_frames") == 2240, report.get("coincidence_frames")),
         floor("data that is all 00 / all FF but for one byte, at every position of every length 1..=40 and 248..=255", report.get("sparse_chunks") > 10_000, report.get("sparse_chunks")),
+        floor("every one-byte code followed by the check byte of the frame it would have made, at 260 addresses", report.get("codes_followed_by_a_check_byte") > 7_000, report.get("codes_followed_by_a_check_byte")),
         floor("all 256 message types swept against all 256 first bytes", report.get("types_swept") == 256, report.get("types_swept")),
         floor("all 65536 addresses swept for every code", report.get("addresses_swept") == 65_536, report.get("addresses_swept")),
     ];
